@@ -93,10 +93,14 @@ def make_grid(spec):
     return g
 
 
-def grid_spec(rng, tier):
+def grid_spec(rng, tier, force=None):
     # sizes are bounded by the exact rational elimination inside Coq (cost grows like n^4..n^5
     # with n = number of faces; n <= 18 here)
-    r = rng.random()
+    r = rng.random() * 0.8          # 3-D grids come from the directed stream only (cost)
+    if force == "tet":
+        r = 0.9
+    elif force == "embedded":
+        r = rng.choice([0.1, 0.5, 0.5])
     if r < 0.3:
         n = rng.randint(1, 6)
         x = [rng.choice([0.0, -1.0, 0.5])]
@@ -104,7 +108,7 @@ def grid_spec(rng, tier):
             x.append(x[-1] + rng.choice([0.25, 0.5, 1.0, 1.5]))
         spec = {"kind": "line", "x": x}
         dim = 1
-    elif r < 0.85:
+    elif r < 0.8:
         spec = {"kind": "tri", "n": rng.choice([[1, 1], [2, 1], [1, 2], [2, 1], [1, 2], [3, 1], [2, 2]])}
         dim = 2
     else:
@@ -114,8 +118,9 @@ def grid_spec(rng, tier):
         g = make_grid(spec)
         amp = 5 if dim == 2 else 3
         spec["pert"] = [[rng.randint(-amp, amp) for _ in range(g.num_nodes)] for _ in range(dim)]
-    if dim < 3 and rng.random() < 0.45:
-        axis = rng.choice([[1, 2, 2], [2, 3, 6], [0, 3, 4], [1, 0, 0], [0, 1, 0], [4, 4, 7]])
+    if dim < 3 and (force == "embedded" or rng.random() < 0.45):
+        axis = rng.choice([[1, 2, 2], [2, 3, 6], [0, 3, 4], [1, 0, 0], [0, 1, 0], [4, 4, 7]]
+                          if force != "embedded" else [[1, 2, 2], [2, 3, 6], [0, 3, 4], [4, 4, 7], [1, 1, 0]])
         spec["rot"] = [axis, rng.choice([0.5, 0.75, 1.25, 2.0, -0.625])]
     return spec, dim
 
@@ -184,7 +189,8 @@ class C18(Prop):
         "mass matrix is consistent with constants; (4) C18_linear_pressures / C18_candidate_form / "
         "C18_certificate_sound: a row of the real assembled saddle-point system that vanishes on the "
         "exact candidates of the basis pressures x, y, z, 1 vanishes on the candidate (u_f = "
-        "-(K a).n_f, p_c = a.x_c + c0) of EVERY linear pressure, tolerance carried through; "
+        "-(K n_f).(P a), P the projection onto the tangent space of the grid, p_c = a.x_c + c0) of "
+        "EVERY linear pressure, tolerance carried through; "
         "C18_unique_solution with C18_nonsingular_certificate: uniqueness, the trivial kernel "
         "being established per instance by an exact left-inverse certificate N A = d I on small "
         "systems (<= 14 unknowns) instead of assumed; (5) 1-D: C18_1d_exact and C18_1d_unique: on "
@@ -205,16 +211,21 @@ class C18(Prop):
         "tolerance; non-singularity is certified only where the exact inverse is cheap (system size "
         "<= 14), elsewhere it remains a hypothesis observed by the oracle's solve; float rounding. "
         "Sizes are bounded (<= 18 faces) by the cost of exact rational elimination inside Coq. "
-        "Permeability: one constant tensor, isotropic on 1-D / embedded grids, anisotropic SPD on "
-        "planar 2-D and on 3-D grids; all boundary faces Dirichlet.")
+        "Permeability: one constant symmetric positive definite tensor in ambient coordinates "
+        "(isotropic, diagonal, transversely isotropic, full); embedded 1-D / 2-D grids see its "
+        "tangential part P K P, with P computed by the harness from the node cloud (SVD), not by "
+        "porepy; all boundary faces Dirichlet. RT0 / MVEM have no subproblem splitting and RT0 needs "
+        "simplices, so neither multi-subproblem runs nor mixed cell types apply here (the property is "
+        "about simplex grids).")
     technique = ("Coq proof of method-level theorems (Schur-complement induction for positive "
                  "definiteness, linearity over Q) + certificate checkers evaluated by vm_compute on the "
                  "real matrices (exact rational elimination inside Coq) + numpy oracle")
     rule = ("grids: 1-D TensorGrid (1-6 cells, uneven dyadic spacing), StructuredTriangleGrid, "
             "StructuredTetrahedralGrid (at most 18 faces: cost of the exact elimination), half of the 2-D/3-D grids with dyadic node offsets, 45% of the "
             "1-D/2-D grids rotated out of their coordinate plane (axis with rational direction); RT0 "
-            "and MVEM alternate; constant permeability (isotropic; anisotropic SPD on planar 2-D and "
-            "3-D); linear pressure with small integer gradient; non-trivial = at least 2 cells and a "
+            "and MVEM alternate; constant permeability: directed streams give 3-D grids a FULL tensor (all "
+            "off-diagonals non-zero, kyy != kzz) and tilted embedded grids a transversely isotropic tensor "
+            "(kxx == kyy != kzz), otherwise isotropic / diagonal / full SPD; linear pressure with small integer gradient; non-trivial = at least 2 cells and a "
             "non-zero gradient")
     trusted = ["the assembled matrix, the four right-hand sides (assemble_matrix_rhs called with the boundary "
                "values of x, y, z, 1) and the dense mass matrix are converted with Fraction(float)",
@@ -229,10 +240,27 @@ class C18(Prop):
 
     def generate(self, rng, n, tier):
         for i in range(n):
-            spec, dim = grid_spec(rng, tier)
+            # directed streams: i % 6 in (0, 3): 3-D grid with a full tensor (RT0 / MVEM);
+            # i % 6 in (1, 4): tilted embedded grid with a transversely isotropic tensor (MVEM / RT0)
+            spec, dim = grid_spec(rng, tier, force={0: "tet", 3: "tet", 1: "embedded", 4: "embedded"}.get(i % 6))
             planar = not spec.get("rot")
+            stream = i % 6
             k = {"kxx": rng.choice([0.5, 1.0, 2.0, 1.5])}
-            if dim >= 2 and planar and rng.random() < 0.6:
+            if dim == 3 and (stream in (0, 3) or rng.random() < 0.5):
+                # full SPD tensor, every off-diagonal non-zero, kyy != kzz (diagonally dominant)
+                k = {"kxx": rng.choice([1.0, 2.0, 1.5]), "kyy": rng.choice([1.0, 3.0]), "kzz": rng.choice([2.0, 1.5]),
+                     "kxy": rng.choice([0.25, -0.25, 0.125]), "kxz": rng.choice([0.125, -0.25, 0.25]),
+                     "kyz": rng.choice([0.125, -0.125, 0.25])}
+            elif not planar and (stream in (1, 4) or rng.random() < 0.4):
+                # tilted embedded grid, transversely isotropic tensor kxx == kyy != kzz
+                kk = rng.choice([0.5, 1.0, 2.0])
+                k = {"kxx": kk, "kyy": kk, "kzz": kk * rng.choice([0.25, 0.5, 2.0, 4.0])}
+            elif not planar and rng.random() < 0.5:
+                # tilted embedded grid, full SPD tensor
+                k = {"kxx": rng.choice([1.0, 2.0]), "kyy": rng.choice([1.0, 3.0, 1.5]), "kzz": rng.choice([2.0, 0.75, 1.0]),
+                     "kxy": rng.choice([0.0, 0.25, -0.125]), "kxz": rng.choice([0.0, 0.125, -0.25]),
+                     "kyz": rng.choice([0.0, -0.125, 0.25])}
+            elif dim >= 2 and planar and rng.random() < 0.6:
                 k["kyy"] = rng.choice([0.5, 1.0, 2.0, 3.0])
                 k["kxy"] = rng.choice([0.0, 0.25, -0.25, 0.125])
                 if dim == 3:
@@ -304,7 +332,16 @@ class C18(Prop):
         x = sps.linalg.spsolve(A.tocsc(), b)
         flux = discr.extract_flux(g, x, data)
         pres = discr.extract_pressure(g, x, data)
+        # orthogonal projection onto the tangent space of the grid, from the node cloud (SVD), not
+        # from porepy's own map_grid
+        if g.dim == 3:
+            P = np.eye(3)
+        else:
+            Xc = g.nodes - g.nodes.mean(axis=1, keepdims=True)
+            U = np.linalg.svd(Xc)[0][:, : g.dim]
+            P = U @ U.T
         return {"nf": nf, "nc": nc, "dim": int(g.dim),
+                "P": [[float(P[i, j]) for j in range(3)] for i in range(3)],
                 "K": [[float(perm.values[i, j, 0]) for j in range(3)] for i in range(3)],
                 "normals": [[float(v) for v in g.face_normals[:, f]] for f in range(nf)],
                 "cc": [[float(v) for v in g.cell_centers[:, c]] for c in range(nc)],
@@ -356,7 +393,8 @@ class C18(Prop):
         K = np.array(full["K"])
         nrm = np.array(full["normals"]).T
         cc = np.array(full["cc"]).T
-        flux_ex = -(K @ a) @ nrm
+        P = np.array(full["P"])
+        flux_ex = -(P @ a) @ (K @ nrm)
         pres_ex = a @ cc + c0
         flux = np.array(full["flux"])
         pres = np.array(full["pressure"])
@@ -365,7 +403,7 @@ class C18(Prop):
         if not np.all(np.isfinite(flux)) or np.abs(flux - flux_ex).max() > 1e-8 * fscale:
             f = int(np.argmax(np.abs(flux - flux_ex)))
             return (f"{case['method']}: face flux {f} = {flux[f]:.12g} for p = {a.tolist()}.x + {c0}, "
-                    f"exact -(K a).n = {flux_ex[f]:.12g}")
+                    f"exact -(K n).(P a) = {flux_ex[f]:.12g}")
         if not np.all(np.isfinite(pres)) or np.abs(pres - pres_ex).max() > 1e-8 * pscale:
             c = int(np.argmax(np.abs(pres - pres_ex)))
             return (f"{case['method']}: cell pressure {c} = {pres[c]:.12g} for p = {a.tolist()}.x + {c0}, "
@@ -387,8 +425,8 @@ class C18(Prop):
         inv = "None"
         if full.get("inv"):
             inv = "(Some ({}, {}))".format(clist(full["inv"]["N"], lambda r: clist(r, ci)), ci(full["inv"]["d"]))
-        return ("(mk_inst {} {} {} {} {} {} {} {} {} {} {} {})".format(
-            cn(full["nf"]), cn(full["nc"]), vl(full["K"]), vl(full["normals"]), vl(full["cc"]),
+        return ("(mk_inst {} {} {} {} {} {} {} {} {} {} {} {} {})".format(
+            cn(full["nf"]), cn(full["nc"]), vl(full["K"]), vl(full["P"]), vl(full["normals"]), vl(full["cc"]),
             vl(full["fc"]), rows(full["finc"]), rows(full["rows"]), vl(full["mass"]),
             clist(full["xs"], cq), inv, clist(full["locals"], self._local)))
 
